@@ -5,6 +5,7 @@
 import Sfv.Driver.Sexp
 import Sfv.Model.Container
 import Sfv.Model.Evolve
+import Sfv.Model.SchemaDiff
 namespace Sfv
 
 structure DState where
@@ -21,7 +22,7 @@ def zooConv : UserFns
 
 def showErrC : ErrC → String
   | .eof => "eof" | .utf8 => "utf8" | .general => "general" | .capacity => "capacity"
-  | .badchar => "badchar" | .alloc => "alloc" | .timestamp => "timestamp"
+  | .badchar => "badchar" | .alloc => "alloc" | .timestamp => "timestamp" | .wrongVersion => "wrongversion"
 def showSite : Site → String
   | .mulOverflow => "mul-overflow" | .sysTime => "systime" | .bulkBool => "bulk-bool"
   | .bulkChar => "bulk-char" | .bulkTag => "bulk-tag"
@@ -102,6 +103,31 @@ def step (st : DState) (line : String) : DState × String :=
       match st.env.lookup writer, st.env.lookup reader, ver.toNat? with
       | some a, some b, some ver => (st, "(ok " ++ toString (encExt (saveWire a ver) (wireOf b ver)) ++ ")")
       | _, _, _ => (st, "(bad-op ext)")
+    | .list [.atom "decschema", .atom ver, .atom hex] =>
+      match ver.toNat?, parseHex hex with
+      | some ver, some bs =>
+        match decSchema st.cfg ver (bs.length + 1) bs with
+        | .ok (s, r) => (st, "(ok " ++ toHex (encSchema 2 s) ++ " " ++ toString r.length ++ ")")
+        | .error f => (st, showFail f)
+      | _, _ => (st, "(bad-op decschema)")
+    | .list [.atom "diff", .atom ha, .atom hb, .atom rp] =>
+      match parseHex ha, parseHex hb, parseBool rp with
+      | some ba, some bb, some rp =>
+        match decSchema st.cfg 2 (ba.length + 1) ba, decSchema st.cfg 2 (bb.length + 1) bb with
+        | .ok (a, _), .ok (b, _) =>
+          match diff a b rp with
+          | .same => (st, "(ok same)")
+          | .differ => (st, "(ok differ)")
+          | .panicFuture => (st, "(panic future)")
+        | _, _ => (st, "(bad-op diff-undecodable)")
+      | _, _, _ => (st, "(bad-op diff)")
+    | .list [.atom "laycompat", .atom ha, .atom hb] =>
+      match parseHex ha, parseHex hb with
+      | some ba, some bb =>
+        match decSchema st.cfg 2 (ba.length + 1) ba, decSchema st.cfg 2 (bb.length + 1) bb with
+        | .ok (a, _), .ok (b, _) => (st, "(ok " ++ toString (layoutCompatible a b) ++ ")")
+        | _, _ => (st, "(bad-op laycompat-undecodable)")
+      | _, _ => (st, "(bad-op laycompat)")
     | .list [.atom "packed", .atom name, .atom ver] =>
       match st.env.lookup name, ver.toNat? with
       | some ty, some ver => (st, "(ok " ++ toString (isPacked ty ver) ++ ")")
